@@ -15,6 +15,7 @@ from guppylang_internals.checker.errors.comptime_errors import (
     PytketSignatureMismatch,
     TketNotInstalled,
 )
+from guppylang_internals.checker.errors.generic import UnsupportedError
 from guppylang_internals.checker.expr_checker import check_call, synthesize_call
 from guppylang_internals.checker.func_checker import (
     check_signature,
@@ -390,6 +391,22 @@ def _signature_from_circuit(
                 angle_ty = angle_defn.check_instantiate([])
 
                 if use_arrays:
+                    # `q_registers` and `c_registers` only list complete registers, i.e.
+                    # units `reg[0], ..., reg[n-1]`. Other units would silently be dropped
+                    # from the signature
+                    if (
+                        sum(reg.size for reg in input_circuit.q_registers)
+                        != input_circuit.n_qubits
+                        or sum(reg.size for reg in input_circuit.c_registers)
+                        != input_circuit.n_bits
+                    ):
+                        raise GuppyError(
+                            UnsupportedError(
+                                defined_at,
+                                "Qubits or bits outside of complete registers",
+                                unsupported_in="pytket circuits loaded with arrays",
+                            )
+                        )
                     inputs = [
                         FuncInput(array_type(qubit_ty, q_reg.size), InputFlags.Inout)
                         for q_reg in input_circuit.q_registers
